@@ -5,6 +5,7 @@ import ast
 
 from .. import cfg as C
 from ..amatch import AM
+from ..flow import expand
 from ..flow import clone
 from ..algebra import NotPolynomial, Poly, ToPoly
 from ..fold import Folder, Obj, Raised, Refuse
@@ -101,8 +102,8 @@ def rule_a(ctx):
            meta == {"space_dim": "3", "dimensions": f"[{h}, *{mn}['dimensions']]", "indexing": "'ijk'", "origin": f"[{h}, *{mn}['origin']]"}, str(meta), f.node)
     am.let("arr", f"{f.params[0]}.img")
     am.let("shape", "arr.shape")
-    ok = all(am.has(f.node, t) is not None for t in (f"arr_3d = np.zeros(({f.params[2]}, *shape), dtype=arr.dtype)",
-                                                     f"for i in range({f.params[2]}):\n    arr_3d[i, ...] = arr", f"return type({f.params[0]})(img=arr_3d, **meta)"))
+    ok = all(am.has(f.node, t) is not None for t in (f"arr_3d = np.zeros(({f.params[2]}, *shape), dtype=arr.dtype)", f"return type({f.params[0]})(img=arr_3d, **meta)")) \
+        and any(am.has(f.node, t) is not None for t in (f"for i in range({f.params[2]}):\n    arr_3d[i, ...] = arr", "arr_3d[...] = arr", "arr_3d[:] = arr", "arr_3d[:, ...] = arr"))
     ctx.ob(R, f.qname, "the new axis is matrix axis 0 of the array", ok, str(am.show()), f.node)
     ctx.floor(R, 8)
 
@@ -139,36 +140,40 @@ def rule_c(ctx):
     ctx.instance(R)
     blk = [n for n in ast.walk(f.node) if isinstance(n, ast.If) and norm(n.test) == "self.is_conservative"]
     ctx.need(len(blk) == 1, "Resize.__call__: is_conservative block not found")
-    st = blk[0].body
-    ok = False
-    desc = ""
     am = AM(f)
     pimg = f.params[1]
-    src_ok = am.has(f.node, f"img_array = {pimg}.img.copy() if input_is_image else {pimg}.copy()") is not None and am.has(f.node, f"input_is_image = isinstance({pimg}, darsia.Image)") is not None
-    res_ok = am.has(f.node, "resized_img_array = np.reshape(resized_multi_channel_img_array, resized_shape)") is not None \
-        and am.has(f.node, "resized_multi_channel_img_array = cv2.merge(resized_channels)") is not None
-    IN, OUT = am.actual("img_array") or "img_array", am.actual("resized_img_array") or "resized_img_array"
-    if len(st) == 1 and isinstance(st[0], ast.AugAssign) and isinstance(st[0].op, ast.Mult):
-        tgt = norm(st[0].target)
-        desc = norm(st[0])
-        try:
-            def atom(n):
-                if isinstance(n, ast.Call) and norm(n.func) == "np.prod":
-                    return "prod(" + norm(n.args[0]) + ")"
-                return None
-            pf = ToPoly(atomize=atom)(st[0].value)
-            ok = res_ok and tgt == OUT and pf == Poly.atom(f"prod({IN}.shape[:2])") / Poly.atom(f"prod({OUT}.shape[:2])")
-        except NotPolynomial:
-            ok = False
-    ctx.ob(R, f.qname, "factor = prod(input voxels) / prod(output voxels), applied to the resized array", ok, desc, blk[0])
-    # order: after merge/reshape, before return
-    body = f.node.body
-    i_blk = body.index(blk[0])
-    merges = [i for i, s in enumerate(body) if isinstance(s, ast.Assign) and norm(s.targets[0]) == OUT]
-    ctx.ob(R, f.qname, "the factor is applied after the channels are merged (all channels alike)", res_ok and merges and max(merges) < i_blk, f"merge at {merges}, factor at {i_blk}", blk[0])
-    ctx.ob(R, f.qname, "the input array of the ratio is the array actually resized (a copy of the input data)", src_ok, str(am.show()), f.node)
+    # the rescaling statement is located by what it does: the one in-place multiplication inside the is_conservative block
+    muls = [s_ for s_ in ast.walk(blk[0]) if isinstance(s_, ast.AugAssign) and isinstance(s_.op, ast.Mult) and isinstance(s_.target, ast.Name)]
+    if len(muls) != 1:
+        ctx.ob(R, f.qname, "factor = prod(input voxels) / prod(output voxels), applied to the resized array", False, "rescaling statement `<array> *= <factor>` not found", blk[0])
+        ctx.floor(R, 1)
+        return
+    st = muls[0]
+    OUT = st.target.id
+
+    def atom(n):
+        if isinstance(n, ast.Call) and norm(n.func) == "np.prod":
+            return "prod(" + norm(n.args[0]) + ")"
+        return None
+    fx = expand(f.node, st.value)
+    try:
+        pf = ToPoly(atomize=atom)(fx)
+    except NotPolynomial:
+        pf = None
+    num = [a for a in (pf.atoms() if pf is not None else []) if a.startswith("prod(") and a != f"prod({OUT}.shape[:2])"]
+    ok = pf is not None and len(num) == 1 and num[0].endswith(".shape[:2])") and pf == Poly.atom(num[0]) / Poly.atom(f"prod({OUT}.shape[:2])")
+    ctx.ob(R, f.qname, "factor = prod(input voxels) / prod(output voxels), applied to the resized array", ok,
+           f"`{norm(st)[:90]}` scales by {pf!r}: not the ratio of the voxel counts of this call's input and output arrays", st, evidence=True)
+    if ok:
+        IN = num[0][len("prod("):-len(".shape[:2])")]
+        defs = [norm(expand(f.node, s_.value)) for s_ in ast.walk(f.node) if isinstance(s_, ast.Assign) and len(s_.targets) == 1 and norm(s_.targets[0]) == IN]
+        src_ok = bool(defs) and all(pimg in d for d in defs) and any(".copy()" in d for d in defs)
+        ctx.ob(R, f.qname, "the input array of the ratio is the array actually resized (a copy of the input data)", src_ok, str(defs)[:200], f.node)
+    later = [norm(s_) for s_ in ast.walk(f.node) if isinstance(s_, (ast.Assign, ast.AugAssign)) and s_ is not st and getattr(s_, "lineno", 0) > st.lineno
+             and any(isinstance(t, ast.Name) and t.id == OUT for t in (s_.targets if isinstance(s_, ast.Assign) else [s_.target]))]
+    ctx.ob(R, f.qname, "the factor is applied to the finished array (no later re-assignment: all channels alike)", not later, str(later), blk[0], evidence=bool(later))
     rets = [norm(r.value) for r in ast.walk(f.node) if isinstance(r, ast.Return) and r.value is not None]
-    ctx.ob(R, f.qname, "the rescaled array is what is returned (as array or wrapped)", len(rets) == 2 and all(OUT in {x.id for x in ast.walk(ast.parse(t, mode='eval')) if isinstance(x, ast.Name)} for t in rets), str(rets), f.node)
+    ctx.ob(R, f.qname, "the rescaled array is what is returned (as array or wrapped)", bool(rets) and all(OUT in {x.id for x in ast.walk(ast.parse(t, mode='eval')) if isinstance(x, ast.Name)} for t in rets), str(rets), f.node)
     ctx.floor(R, 1)
 
 
